@@ -106,7 +106,9 @@ theorem delayed_close_noop (c : Conn) :
     (c.alive = false → fireDelay c = c) ∧ (c.st = .kDisconnected → fireDelay c = c) ∧
     (c.st = .kConnecting → fireDelay c = c) := by
   refine ⟨?_, ?_, ?_⟩
-  · intro h; simp [fireDelay, h]
+  · intro h
+    have hw : forceCloseDelayHold = Hold.weak := by decide   -- the timer holds a weak callback (extracted)
+    simp [fireDelay, h, hw]
   · intro h; unfold fireDelay; split
     · simp [actLoop, act, forceCloseAccepts, h]
     · rfl
